@@ -85,6 +85,7 @@ func checkC10(c *Ctx, r *rep.Report) {
 		}
 		ruleDecode(r, p)
 		ruleEncode(r, p)
+		ruleConversions(r, p)
 		ruleBitOrigin(r, p, "curve25519")
 	}
 }
@@ -98,6 +99,8 @@ func checkC11(c *Ctx, r *rep.Report) {
 			continue
 		}
 		ruleX25519(r, p)
+		ruleBitOrigin(r, p, "modm") // the fast path's radix-16 recoding must consume all 256 scalar bits
+		ruleSelector(r, p)
 	}
 }
 
